@@ -471,3 +471,16 @@ META = {
         "macOS (__APPLE__) branches and PIKA_HAVE_MAX_CPU_COUNT / PIKA_HAVE_MPI branches: inactive in the shipped configuration",
     ],
 }
+
+
+# ---- the cached values the running runtime uses (added after seeded change C16-1 was missed) ----------------------
+RC = "libs/pika/runtime_configuration/src/runtime_configuration.cpp"
+UNITS.append(Unit("rtcfg.reconfigure", "reconf.c", enforce="reconfigure",
+                  lifts={"body": Lift(RC, r"void runtime_configuration::reconfigure\(\)", rules=[
+                      Call(r"\b(pre_initialize_ini|pre_initialize_logging_ini)(?!\s*\(\s*self\b)", "{h1}(self)", None),
+                      Call(r"\bpost_initialize_ini(?!\s*\(\s*self\b)", "post_initialize_ini(self, self->{0}, self->{1})", None),
+                      Call(r"\b(init_(?:small|medium|large|huge)_stack_size)(?!\s*\(\s*self\b)", "{h1}(self)", None),
+                      Sub(r"(?<![\w>.])(small|medium|large|huge)_stacksize\b", r"self->\1_stacksize", None),
+                  ])},
+                  funcs=[RC + ": runtime_configuration::reconfigure"], min_obligations=5,
+                  doc="the stack sizes cached for the running runtime are re-read from the configuration after the command-line / --pika:ini definitions were merged"))
